@@ -460,7 +460,7 @@ struct Env {
             if (!actualView().empty() || !actualPres().empty() || mgr->isRosterReceived()) oracleFail("C12:survived-new-session", history);
             else oraclePass()++;
         }
-        oracleView(line.c_str());
+        oracleView(line.substr(0, line.find(' ')).c_str());
         return { line, obs };
     }
 };
